@@ -174,7 +174,8 @@ XmlElement::XmlElement(istream& ifs, int subidx, XmlElement *parent, int txtline
 	while (ifsptr->good() && state != finished)
 	{
 		char c;
-		*ifsptr >> noskipws >> c;
+		if (!(*ifsptr >> noskipws >> c))	// end of input: c was not assigned
+			break;
 		switch (c)
 		{
 		case '\n':
@@ -549,7 +550,8 @@ int XmlElement::ParseAttrs(const string& attlst)
 	while (istr.good())
 	{
 		char c;
-		istr >> noskipws >> c;
+		if (!(istr >> noskipws >> c))	// end of list: c was not assigned
+			break;
 
 		switch (state)
 		{
